@@ -3,14 +3,16 @@
 from harness import common, gens
 from harness.props import C01, C02, C03
 
-LEVEL_NOTE = ("Theorems for every enzyme and every rotation: occurrences of the site mirror under reverse complement; the "
-              "reverse complement of the module of the formal definition is a rotation of the module built from the "
-              "reverse-complemented pieces; both the record and its reverse complement are accepted, the latter reporting "
-              "the overhangs exchanged and reverse-complemented and the target body reverse-complemented (generic module "
-              "class). PARTIAL: the vector version and the assembly-level statement (assembling the reverse complements "
-              "gives the reverse complement of the product) are not proved in Coq; they are decided by the differential "
-              "part: CircularRecord.reverse_complement() of generated vectors/modules of every cutter geometry at random "
-              "origins, typing and assembly compared with the model and with the symmetric expectation.")
+LEVEL_NOTE = ("Theorems for every enzyme and every rotation: occurrences of the site mirror under reverse complement; for "
+              "ANY circle carrying the site and its reverse complement once each, the generic module (vector) class accepts "
+              "it iff it accepts its reverse complement, which then reports the overhangs exchanged and reverse-"
+              "complemented and the bodies reverse-complemented (an accepted two-site circle is shown to be a rotation of "
+              "the plasmid of the formal definition); end to end from raw plasmids: assembling the reverse complements "
+              "of a vector and all its modules (any origins, any order) succeeds with the modules in the opposite order "
+              "and yields, up to the letter case of the junctions and the origin, the reverse complement of the product. "
+              "Differential part: CircularRecord.reverse_complement() of generated vectors/modules of every cutter "
+              "geometry at random origins, typing and assembly compared with the model and with the symmetric expectation, "
+              "classes of neoschizomers used first in the same interpreter.")
 
 IMPORTS = C02.IMPORTS
 
